@@ -29,10 +29,24 @@ func init() {
 		if len(ps) > 0 {
 			sc.Setup = append(sc.Setup, Op{ID: g.id("s"), Kind: KPostings, Ledger: "l1", Postings: ps})
 		}
+		overdrawn := r.Chance(0.2)
+		if overdrawn {
+			// an account left below zero by a forced request; later requests pass it through a zero-amount posting,
+			// refill it partly and spend from it again
+			sc.Setup = append(sc.Setup, Op{ID: g.id("s"), Kind: KPostings, Ledger: "l1", Force: true, Postings: []PostingSpec{{"n", "world", fmt.Sprint(20 + r.Intn(60)), "USD"}}})
+		}
 		nc := 1 + r.Intn(3)
 		for c := 0; c < nc; c++ {
 			n := 1 + r.Intn(4)
 			var ops []Op
+			if overdrawn && r.Chance(0.7) {
+				credit := 5 + r.Intn(40)
+				pp := []PostingSpec{{"n", Pick(r, accts), "0", "USD"}, {"world", "n", fmt.Sprint(credit), "USD"}, {"n", Pick(r, accts), fmt.Sprint(1 + r.Intn(credit)), "USD"}}
+				if r.Chance(0.3) {
+					pp = pp[1:]
+				}
+				ops = append(ops, Op{ID: fmt.Sprintf("c%d.n", c), Kind: KPostings, Ledger: "l1", Postings: pp})
+			}
 			for i := 0; i < n; i++ {
 				np := 1 + r.Intn(5)
 				if r.Chance(0.1) {
@@ -110,12 +124,12 @@ func wouldOverdraw(bal map[string]*big.Int, postings []PostingSpec) (overdraw, c
 	for _, p := range postings {
 		amt := bigOf(p.Amount)
 		if p.Source != "world" {
+			// a bounded source can give what it has above zero: a posting of amount 0 takes nothing and passes
+			// whatever the balance (also a negative one, left by a forced request); a positive amount needs a balance
+			// that stays at or above zero
 			s := get(p.Source + "\x00" + p.Asset)
-			if s.Sign() < 0 {
-				clear = false
-			}
 			s.Sub(s, amt)
-			if s.Sign() < 0 {
+			if amt.Sign() > 0 && s.Sign() < 0 {
 				overdraw = true
 			}
 		}
